@@ -31,7 +31,18 @@ extern "C" void h_raycast() {
   // are paired with one-halfedge neighbour stubs (faces 1..3), exactly the
   // storage Kernel12 reads: Start/Pair of the face's halfedges, vertex
   // positions and normals, the face normals of the face and of its neighbours
+#ifdef VF_CONCRETE_TRI
+  // one concrete triangle in general position (distinct x, y, z everywhere);
+  // the SEGMENT stays symbolic: both directions of travel, every start/end
+  // relation to the surface
+  P3 T[3] = {{2, -2, -1}, {-1, 2, -2}, {-2, -1, 2}};
+  {  // rotate the coordinate roles with the axis so that each axis sees the same geometry
+    for (int i = 0; i < 3; i++)
+      for (int r = 0; r < VF_AXIS; r++) { const i64 t = T[i].z; T[i].z = T[i].y; T[i].y = T[i].x; T[i].x = t; }
+  }
+#else
   P3 T[3] = {L(), L(), L()};
+#endif
   Manifold::Impl m;
   m.vertPos_.resize(3, vec3(0.0));
   m.vertNormal_.resize(3, vec3(0.0));
